@@ -482,7 +482,7 @@ Proof.
   rewrite seq_nth by exact Hq. reflexivity.
 Qed.
 
-Theorem quick_argsort_sorted (col : list R) idx : quick_argsort ROps col = Some idx ->
+Lemma quick_argsort_sorted (col : list R) idx : quick_argsort ROps col = Some idx ->
   Permutation idx (seq 0 (length col)) /\
   forall i j, i <= j < length col -> (nth (nth i idx 0%nat) col 0 <= nth (nth j idx 0%nat) col 0)%R.
 Proof.
